@@ -99,6 +99,8 @@ func scenarios() []scenario {
 	l1 := b.mk(bb.HashOf(), gen.BitsNormal)
 	out = append(out, scenario{"locator-during-reorg", []refmodel.Hdr{a, bb, l1}, [][]op{{add(b.mk(g, gen.BitsHeavy))}, {{IsLoc: true}}}})
 	out = append(out, scenario{"locator-during-reorg-down", []refmodel.Hdr{a, bb, l1}, [][]op{{add(b.mk(a.HashOf(), gen.BitsHeavy))}, {{IsLoc: true}, {IsLoc: true}}}})
+	// 15: a header on the forbidden list next to an ordinary extension (the refused submission must not hold anything back)
+	out = append(out, scenario{"forbidden-vs-extension", []refmodel.Hdr{a}, [][]op{{add(mb.ForbiddenHeaders()[0]), add(mb.ForbiddenHeaders()[1])}, {add(b.mk(a.HashOf(), gen.BitsNormal)), {IsTip: true}}}})
 	// 12: orphan and its would-be parent
 	par := b.mk(a.HashOf(), gen.BitsNormal)
 	out = append(out, scenario{"orphan-and-late-parent", []refmodel.Hdr{a}, [][]op{{add(b.mk(par.HashOf(), gen.BitsNormal))}, {add(par)}, {{IsTip: true}}}})
@@ -510,7 +512,7 @@ func freeRunning(r *ev.Run, i int) *p2prig.Scenario {
 }
 
 func body(r *ev.Run) {
-	r.Rule("(1) free-running: legacy full server / experimental peers against 2-4 scripted nodes that connect, announce (inv and headers, two peers at once), drop and get re-dialled, an inbound peer, and 3 concurrent HTTP readers on /network/peer, /network/peer/count, tips and headers; built with -race, every report attributed by innermost repository functions. (2) controlled scheduler at the repository interface: 14 scenarios of 2-3 submitters/readers (both extend the tip; extend vs heavier fork; two reorganising forks; same header twice; child and parent; chain vs fork; stale branch overtaking; readers (tip, block locator) during reorganisation/extensions; zero-work; orphan and late parent), depth-first enumeration of all schedules within a pre-emption bound for two-thread scenarios, seeded random schedules otherwise; after EVERY granted step, with the world stopped, the table must satisfy the structural invariant and a reader's tip must be a LONGEST row. (4) free-running reorganisation storms: one submitter flips the best chain between a tall light branch and a lower heavier one while 6 readers ask for the tip (HTTP and service layer) as fast as they can - every read must name a stored header. (3) every execution's Add/GetTip history plus the final table is checked for linearizability against the reference model with porcupine. evaluations = controlled executions + free-running scenarios; distinct = distinct granted-step sequences; non-trivial = all.")
+	r.Rule("(1) free-running: legacy full server / experimental peers against 2-4 scripted nodes that connect, announce (inv and headers, two peers at once), drop and get re-dialled, an inbound peer, and 3 concurrent HTTP readers on /network/peer, /network/peer/count, tips and headers; built with -race, every report attributed by innermost repository functions. (2) controlled scheduler at the repository interface: 15 scenarios of 2-3 submitters/readers (both extend the tip; extend vs heavier fork; two reorganising forks; same header twice; child and parent; chain vs fork; stale branch overtaking; readers (tip, block locator) during reorganisation/extensions; zero-work; orphan and late parent; forbidden headers next to an extension), depth-first enumeration of all schedules within a pre-emption bound for two-thread scenarios, seeded random schedules otherwise; after EVERY granted step, with the world stopped, the table must satisfy the structural invariant and a reader's tip must be a LONGEST row. (4) free-running reorganisation storms: one submitter flips the best chain between a tall light branch and a lower heavier one while 6 readers ask for the tip (HTTP and service layer) as fast as they can - every read must name a stored header. (3) every execution's Add/GetTip history plus the final table is checked for linearizability against the reference model with porcupine. evaluations = controlled executions + free-running scenarios; distinct = distinct granted-step sequences; non-trivial = all.")
 	r.Assume("scheduling granularity = calls of repository.Headers (each one SQL statement/transaction)", "a thread blocked on a Go mutex is treated as disabled (goroutine status from runtime.Stack)", "free-running schedules are whatever the real goroutines/sockets produce under load")
 	r.Require("schedules_executed", 200)
 	r.Require("invariant_evaluations", 1000)
